@@ -42,6 +42,7 @@ type paceLoop struct {
 	schedule func(t int64) float64 // nil for the constant pacer
 	per, frq int64                 // constant pacer
 	horizon  func(t int64) bool    // stop the loop here (linear pacer leaving its domain)
+	cross    int64                 // > 0: the instant from which on the pacer may stop (its rate has reached zero)
 	always   bool                  // run in every tier and for every seed
 	rate     func(t int64) float64 // the declared instantaneous rate in hits per second (derivative of the schedule); nil = not asked
 }
@@ -197,6 +198,9 @@ func (pl *paceLoop) run(tr *Tracer, r *rand.Rand, n int, stallMode int) (consult
 			kv["ediv"] = divWitness(uint64(t), uint64(pl.per))
 		}
 		bounds(kv, t)
+		if pl.cross > 0 {
+			kv["crossed"] = t >= pl.cross-1000 // (a microsecond of float rounding in the instant itself)
+		}
 		tr.Emit("Consult", kv)
 		consults++
 		if stop {
@@ -321,6 +325,21 @@ func TestDrv_C01(t *testing.T) {
 		{100000, time.Second, -1e-3}, {1, time.Minute, -1e-20}} {
 		pl := linearLoop(c.start, c.per, c.slope)
 		pl.always = true
+		loops = append(loops, pl)
+	}
+	// ramps that are followed down to a rate of zero and beyond (no horizon): from there on the declared schedule falls, which no
+	// count of hits can; what the statement implies for every t all the same is that the count never exceeds the highest value the
+	// schedule has had so far by more than one hit - whether the pacer stops there (it does) or not
+	for _, c := range []struct {
+		start int
+		slope float64
+	}{{100, -50}, {10, -1}, {1000, -2000}} {
+		pl := linearLoop(c.start, time.Second, c.slope)
+		b, a := float64(c.start), c.slope
+		cross := int64(-b / a * 1e9) // the instant the rate reaches zero
+		pl.always, pl.horizon, pl.rate, pl.cross = true, nil, nil, cross
+		pl.schedule = func(t int64) float64 { x := float64(min(t, cross)) / 1e9; return a*x*x/2 + b*x }
+		pl.reset["text"] = fmt.Sprintf("Linear{start %d/1s slope %g} followed past its zero crossing", c.start, c.slope)
 		loops = append(loops, pl)
 	}
 	loops = append(loops, linearLoop(0, time.Second, 1), linearLoop(5, 0, 1), linearLoop(-1, time.Second, 1), linearLoop(1, -time.Second, 1))
